@@ -378,7 +378,8 @@ impl Target {
     }
 }
 
-pub const STATE_NAMES: [&str; 8] = [
+pub const NSTATES: usize = 10;
+pub const STATE_NAMES: [&str; NSTATES] = [
     "fresh",
     "mid-reassembly",
     "buffered-undrained",
@@ -387,6 +388,8 @@ pub const STATE_NAMES: [&str; 8] = [
     "64-pending-ranges",
     "combined",
     "receive-channels-2400-below-budget",
+    "receive-channels-2000-below-budget",
+    "receive-channels-1300-below-budget",
 ];
 
 /// builds prepared state `si` for the client (role 0) or the server (role 1) as target
@@ -443,9 +446,9 @@ pub fn prepared(role: usize, si: usize) -> Target {
         }
     };
     // every receive channel is left exactly 2400 bytes (one 2-slice reservation) below its budget
-    let do_nearly_full = |l: &mut Link| {
+    let do_nearly_full = |l: &mut Link, free: usize| {
         for ch in 0..3u8 {
-            let mut left = BUDGET - 2400;
+            let mut left = BUDGET - free;
             while left > 0 {
                 let n = left.min(1200);
                 let _ = l.send(h, ch, n);
@@ -462,7 +465,9 @@ pub fn prepared(role: usize, si: usize) -> Target {
     };
     match si {
         0 => {}
-        7 => do_nearly_full(&mut l),
+        7 => do_nearly_full(&mut l, 2400),
+        8 => do_nearly_full(&mut l, 2000),
+        9 => do_nearly_full(&mut l, 1300),
         1 => do_mid(&mut l, 0),
         2 => do_buffered(&mut l),
         3 => {
@@ -526,7 +531,7 @@ pub fn run(tier: Tier) -> i32 {
     rep.rule("sweeps over hostile histories injected into 7 prepared states (fresh, mid-reassembly, buffered, after drains, unacked + sent-packet map, 64 pending ack ranges, combined) of a client endpoint and of a server-side connection: (1) every single packet of a hand-assembled boundary-value alphabet (types, sequence, channel id, announced counts, ids, lengths, slice index / count / payload length, ack shapes, non-minimal varints, truncations); (2) every pair and (3) every triple over the slice family {index} x {count} x {payload length} of one message id on the reliable-ordered, reliable-unordered and unreliable channel; oracle: no unwind, status connected or disconnected-with-reason, receive accounting within [0,budget] (hook), every other API call still returns, the server's other connection completes a reliable exchange");
     rep.assume("packets are assembled by the harness's own varint writer (so unencodable values can be produced); states are prepared through honest traffic of the real peer endpoint");
     let singles = singles(tier);
-    let states: Vec<(usize, usize, Target)> = (0..2).flat_map(|r| (0..8).map(move |s| (r, s, prepared(r, s)))).collect();
+    let states: Vec<(usize, usize, Target)> = (0..2).flat_map(|r| (0..NSTATES).map(move |s| (r, s, prepared(r, s)))).collect();
     // (1) singles x states
     let n = singles.len() * states.len();
     let r = explore::sweep(n, |i| {
@@ -561,7 +566,7 @@ pub fn run(tier: Tier) -> i32 {
     let fl = fam.len();
     let words = fl.pow(depth as u32);
     let targets: Vec<(u8, u8)> = vec![(2, 1), (2, 2), (3, 0)]; // (packet type, channel)
-    let fstates: Vec<usize> = vec![0, 1, 6, 7]; // fresh, mid-reassembly, combined, nearly full
+    let fstates: Vec<usize> = vec![0, 1, 6, 7, 8, 9]; // fresh, mid-reassembly, combined, nearly full (three margins)
     let total = words * targets.len() * fstates.len() * 2;
     let r = explore::sweep(total, |i| {
         let w = i % words;
@@ -580,7 +585,7 @@ pub fn run(tier: Tier) -> i32 {
             pk.push(slice_pkt(ty, 50 + k as u64, ch, id, idx, n, len as u64, len));
         }
         let refs: Vec<&Hostile> = pk.iter().collect();
-        let base = &states[role * 8 + st].2;
+        let base = &states[role * NSTATES + st].2;
         let (o, v) = run_case(base, &refs);
         (h64(&(o, ty, ch, st, role, w % 17)), v)
     });
@@ -637,7 +642,7 @@ pub fn run(tier: Tier) -> i32 {
             let (role, st, ty, ch, k) = hist[i];
             let pk: Vec<Hostile> = (0..k).map(|m| slice_pkt(ty, 200 + m as u64, ch, 100 + m as u64, 0, 2, 1200, 1200)).collect();
             let refs: Vec<&Hostile> = pk.iter().collect();
-            let (o, v) = run_case(&states[role * 8 + st].2, &refs);
+            let (o, v) = run_case(&states[role * NSTATES + st].2, &refs);
             (h64(&(o, role, st, ty, k)), v)
         });
         rep.add_sweep("many-partial-messages", r.cases, r.distinct_outcomes, 4, vec!["first slices of K in {31,32,33,34,40,64,80} distinct message ids, then follow-up API calls incl. update(4 s)".into()]);
@@ -683,7 +688,7 @@ pub fn replay(j: &J) -> i32 {
     println!(
         "target: {} in state '{}'; injecting {} packet(s)",
         if role == 0 { "RenetClient::process_packet" } else { "RenetServer::process_packet_from" },
-        STATE_NAMES[state.min(7)],
+        STATE_NAMES[state.min(NSTATES - 1)],
         pk.len()
     );
     if let Some(t) = j.get("packets_text").and_then(|a| a.as_arr()) {
@@ -691,7 +696,7 @@ pub fn replay(j: &J) -> i32 {
             println!("  {}", x.as_str().unwrap_or(""));
         }
     }
-    let base = prepared(role, state.min(7));
+    let base = prepared(role, state.min(NSTATES - 1));
     let refs: Vec<&Hostile> = pk.iter().collect();
     let (o1, v) = run_case(&base, &refs);
     let (o2, _) = run_case(&base, &refs);
